@@ -792,9 +792,11 @@ impl World {
         // A repeated type would move the same component out twice
         S::with_static_type_info(Archetype::assert_type_info);
 
-        let bundle = unsafe {
+        // The archetype keeps ownership of these components until `insert_inner` has moved the
+        // entity, so they must not be dropped if it panics, e.g. because `components` is invalid.
+        let bundle = core::mem::ManuallyDrop::new(unsafe {
             S::get(|ty| source_arch.get_dynamic(ty.id(), ty.layout().size(), loc.index))?
-        };
+        });
 
         // Find the intermediate archetype ID
         let intermediate =
@@ -802,7 +804,7 @@ impl World {
 
         self.insert_inner(entity, components, intermediate, loc);
 
-        Ok(bundle)
+        Ok(core::mem::ManuallyDrop::into_inner(bundle))
     }
 
     /// Remove the `S` component from `entity` and then add `component`
